@@ -324,7 +324,7 @@ def _curves_patterns_case():
     return Case("curves_and_patterns", build, crosscheck=False)
 
 
-CONTRACTS = [Contract("wntr.network.io:from_dict", P, _cases + [_curves_patterns_case(), _demand_list_case(1), _demand_list_case(3), _demand_list_case(4)], models=_models,
+CONTRACTS = [Contract("wntr.network.io:from_dict", P + ["C07"], _cases + [_curves_patterns_case(), _demand_list_case(1), _demand_list_case(3), _demand_list_case(4)], models=_models,
                       trusted=["WaterNetworkModel.add_junction/add_tank/add_reservoir/add_pipe/add_pump/add_valve store each parameter in the attribute of the same meaning (C14)",
                                "Node.to_dict / Link.to_dict are reflective: the key set is computed by running them on real instances"])]
 def _options_constructors(tier, seed):
